@@ -26,9 +26,9 @@ def graph(need_mc=False):
             raise common.Machinery(f"design model MC_paths violates {res.violation}:\n{res.out[-3000:]}")
         init, adj = tours.parse_dot(dot)
         os.unlink(dot)
-        with open(cache + ".tmp", "wb") as fh:
+        with open(cache + f".{os.getpid()}.tmp", "wb") as fh:
             pickle.dump(dict(init=init, adj=dict(adj)), fh)
-        os.replace(cache + ".tmp", cache)
+        os.replace(cache + f".{os.getpid()}.tmp", cache)
     with open(cache, "rb") as fh:
         g = pickle.load(fh)
     return g["init"], g["adj"], res
